@@ -147,3 +147,93 @@ def for_each_iter_mut_enumerate(label, invariant, pre_body="", post_body="", bef
 
     return Rule("R2", "$v . iter_mut ( ) . enumerate ( ) . for_each ( | ( $i , $x ) | $$body ) ;", repl, count=1,
                 why="iter_mut().enumerate().for_each(closure) -> indexed while; `*item = e` -> v.set(i, e) (iteration order of std iterators)")
+
+
+# ---------------------------------------------------------------------------------------------------------------------
+# R2 iterator idioms with a boolean closure -> indexed loops.  `spec(i_expr)` / `spec2(a_i, b_i)` give the ghost text of "the closure
+# body holds for this element" (the callee's contract); the loop invariants are generic in it.  Every idiom keeps its own meaning
+# (`all` = for all, `any` = exists, `windows(2)` = adjacent pairs, `chunks_exact(2)` = disjoint pairs): a changed adapter still
+# translates and then fails the postcondition of the function instead of losing the anchor.
+def _tok_subst(body, mapping):
+    """replace token sequences (tuples of tokens) in body by replacement token lists"""
+    out, i = [], 0
+    while i < len(body):
+        for k, v in mapping:
+            if tuple(body[i:i + len(k)]) == k:
+                out.extend(v); i += len(k)
+                break
+        else:
+            out.append(body[i]); i += 1
+    return out
+
+
+def iter_idiom_rules(label, elem_spec, pair_spec, adj_spec=None):
+    """elem_spec(vec_name, j) -> ghost bool text for closure-over-one-element idioms (all/any over `a.iter()`);
+    pair_spec(a_name, ja, b_name, jb) -> ghost bool text for two-element closures (zip, windows, chunks_exact)"""
+    n = [0]
+    if adj_spec is None:
+        adj_spec = lambda a, j: pair_spec(a, j, a, f"{j} + 1")
+
+    def fresh():
+        n[0] += 1
+        return f"{label}{n[0]}"
+
+    def zip_all(b):
+        a, bb, x, y, body = text(b["a"]), text(b["b"]), text(b["x"]), text(b["y"]), b["body"]
+        k = fresh(); i, r = f"verif_i_{k}", f"verif_r_{k}"
+        inv = (f"invariant {i} <= {a}.len(), {i} <= {bb}.len(), forall|j: int| 0 <= j < {i} ==> {pair_spec(a, 'j', bb, 'j')}, "
+               f"!{r} ==> ({i} < {a}.len() && {i} < {bb}.len() && !({pair_spec(a, i + ' as int', bb, i + ' as int')})) "
+               f"decreases {a}.len() - {i} + (if {r} {{ 1int }} else {{ 0int }})")
+        return ["{", f"let mut {i} : usize = 0 ; let mut {r} = true ; while {r} && {i} < {a} . len ( ) && {i} < {bb} . len ( )", G(inv),
+                "{", f"let {x} = & {a} [ {i} ] ; let {y} = & {bb} [ {i} ] ; if ! (", *body, f") {{ {r} = false ; }} else {{ {i} += 1 ; }}", "}", r, "}"]
+
+    def one(kind):
+        def repl(b):
+            a, x, body = text(b["a"]), text(b["x"]), b["body"]
+            k = fresh(); i, r = f"verif_i_{k}", f"verif_r_{k}"
+            if kind == "all":
+                inv = (f"invariant {i} <= {a}.len(), forall|j: int| 0 <= j < {i} ==> {elem_spec(a, 'j')}, !{r} ==> ({i} < {a}.len() && !({elem_spec(a, i + ' as int')})) "
+                       f"decreases {a}.len() - {i} + (if {r} {{ 1int }} else {{ 0int }})")
+                return ["{", f"let mut {i} : usize = 0 ; let mut {r} = true ; while {r} && {i} < {a} . len ( )", G(inv),
+                        "{", f"let {x} = & {a} [ {i} ] ; if ! (", *body, f") {{ {r} = false ; }} else {{ {i} += 1 ; }}", "}", r, "}"]
+            inv = (f"invariant {i} <= {a}.len(), forall|j: int| 0 <= j < {i} ==> !({elem_spec(a, 'j')}), {r} ==> ({i} < {a}.len() && {elem_spec(a, i + ' as int')}) "
+                   f"decreases {a}.len() - {i} + (if {r} {{ 0int }} else {{ 1int }})")
+            return ["{", f"let mut {i} : usize = 0 ; let mut {r} = false ; while ! {r} && {i} < {a} . len ( )", G(inv),
+                    "{", f"let {x} = & {a} [ {i} ] ; if (", *body, f") {{ {r} = true ; }} else {{ {i} += 1 ; }}", "}", r, "}"]
+        return repl
+
+    def pairs(step):
+        def repl(b):
+            a, x, body = text(b["a"]), text(b["x"]), b["body"]
+            k = fresh(); i, r = f"verif_i_{k}", f"verif_r_{k}"
+            body2 = _tok_subst(body, [((x, "[", "0", "]"), [a, "[", i, "]"]), ((x, "[", "1", "]"), [a, "[", i, "+", "1", "]"])])
+            if x in body2:
+                return None                       # the closure uses the window other than as x[0] / x[1]: decline
+            dom = f"0 <= j < {i}" + (" && j % 2 == 0" if step == 2 else "")
+            inv = (f"invariant {i} <= {a}.len(), " + (f"{i} % 2 == 0, " if step == 2 else "") + f"forall|j: int| {dom} ==> {adj_spec(a, 'j')}, "
+                   f"!{r} ==> ({i} + 1 < {a}.len() && !({adj_spec(a, i + ' as int')})) "
+                   f"decreases {a}.len() - {i} + (if {r} {{ 1int }} else {{ 0int }})")
+            return ["{", f"let mut {i} : usize = 0 ; let mut {r} = true ; while {r} && {a} . len ( ) - {i} > 1", G(inv),
+                    "{", "if ! (", *body2, f") {{ {r} = false ; }} else {{ {i} += {step} ; }}", "}", r, "}"]
+        return repl
+
+    why = "iterator adapter with a boolean closure -> indexed loop with the adapter's own meaning"
+    return [
+        Rule("R2", "$a . iter ( ) . zip ( $b . iter ( ) ) . all ( | ( $x , $y ) | $$body )", zip_all, why=why + " (zip + all: common prefix, every pair)"),
+        Rule("R2", "$a . iter ( ) . as_ref ( ) . windows ( 2 ) . all ( | $x | $$body )", pairs(1), why=why + " (windows(2) + all: every adjacent pair)"),
+        Rule("R2", "$a . windows ( 2 ) . all ( | $x | $$body )", pairs(1), why=why + " (windows(2) + all: every adjacent pair)"),
+        Rule("R2", "$a . iter ( ) . as_ref ( ) . chunks_exact ( 2 ) . all ( | $x | $$body )", pairs(2), why=why + " (chunks_exact(2) + all: disjoint pairs, trailing element ignored)"),
+        Rule("R2", "$a . chunks_exact ( 2 ) . all ( | $x | $$body )", pairs(2), why=why + " (chunks_exact(2) + all: disjoint pairs)"),
+        Rule("R2", "$a . iter ( ) . all ( | $x | $$body )", one("all"), why=why + " (all)"),
+        Rule("R2", "$a . iter ( ) . any ( | $x | $$body )", one("any"), why=why + " (any)"),
+    ]
+
+
+def for_in_vec(label, invariant):
+    """R2: `for x in v { B }` over a `&Vec` -> indexed while; `invariant` is ghost text with $K (index) and $V (vector)"""
+    def repl(b):
+        v, x, body = text(b["v"]), text(b["x"]), b["body"]
+        k = f"verif_k_{label}"
+        return [f"let mut {k} : usize = 0 ; while {k} < {v} . len ( )", G(invariant.replace("$K", k).replace("$V", v)),
+                "{", f"let {x} = & {v} [ {k} ] ; {k} += 1 ;", *body, "}"]      # index advanced first: `continue` cannot skip it
+    return Rule("R2", "for $x in $v { $$body }", repl, why="for over &Vec -> indexed while (iteration order of slice::Iter)")
